@@ -27,7 +27,7 @@ RULE = ("history = a configuration endpoint and up to 8 node servers behind one 
         "client connects to while routing the corpus is advertised (with >= 50 keys and <= 6 nodes: all advertised "
         "nodes are used); no command reaches a node that is no longer advertised; every key-addressed call succeeds; "
         "sockets to replaced nodes are closed; the ERROR endpoint makes construction fail with a MemcacheError "
-        "(MemcacheUnknownCommandError), without waiting for an end token that will never come. Clients side by side: two ElastiCache clients for two clusters (each behind its own endpoint and fake network; overlapping or disjoint node sets, any use_vpc mix, pooled or not) alive in one process and used alternately / one after the other with the same keys, optionally with a re-discovery of one of them half-way: every set/get of a client reaches exactly one node its own endpoint advertises and nothing of the other cluster. Non-trivial: a "
+        "(MemcacheUnknownCommandError), without waiting for an end token that will never come. Node lists include nodes that share an address and differ only in the port (one host name and IP with three ports; a node sharing only its IP, another only its host name, with a second node). Clients side by side: two ElastiCache clients for two clusters (each behind its own endpoint and fake network; overlapping or disjoint node sets, any use_vpc mix, pooled or not) alive in one process and used alternately / one after the other with the same keys, optionally with a re-discovery of one of them half-way: every set/get of a client reaches exactly one node its own endpoint advertises and nothing of the other cluster. Non-trivial: a "
         "scale-down or replacement followed by traffic, or a reply cut inside the node line or the end token.")
 MANIFEST = {
     "category": "exploration",
@@ -44,6 +44,10 @@ ASSUMPTIONS = [
 CFG_HOST = "cluster.abcxyz.cfg.use1.cache.amazonaws.com"
 CFG = CFG_HOST + ":11211"
 NODES = [("node%d.abcxyz.use1.cache.amazonaws.com" % i, "10.0.%d.%d" % (i // 4, 10 + i), 11211 + (i % 3)) for i in range(8)]
+# nodes 8-10: one address (host name and IP alike), three ports - a port-forwarding gateway, a tunnel, a local test cluster
+NODES += [("gateway.abcxyz.use1.cache.amazonaws.com", "10.0.9.9", 11311 + i) for i in range(3)]
+# node 11 shares only its IP with node 0 (another port), node 12 only its host name with node 1
+NODES += [("alias-of-0.abcxyz.use1.cache.amazonaws.com", NODES[0][1], 11999), (NODES[1][0], "10.0.7.77", 11998)]
 HUGE = 1 << 30
 
 
@@ -210,6 +214,7 @@ def fixed_history_cases(tier, seed):
         [[0, 1, 2], [0]], [[0, 1, 2], [1, 2]], [[0], [0, 1, 2, 3]], [[0, 1], [2, 3]], [[0, 1, 2], [2, 1, 0]], [[0, 1, 2, 3, 4, 5], [5], [0, 1, 2, 3, 4, 5]],
         [[3], [4], [5], [3]], [[0, 1, 2], [0, 1, 2]], [[7, 6], [6, 7, 0], [0]], [[0, 1, 2, 3], [0, 1, 2], [0, 1], [0]],
     ]
+    hist += [[[8, 9, 10]], [[8, 9], [9, 10], [8]], [[0, 8, 9, 10], [10]], [[0, 11], [0, 11, 1, 12]], [[1, 12], [12]], [[11, 0, 12, 1, 8, 9]]]
     for h in hist:
         for vpc in (True, False, 1, 0):
             for pooling in (False, True):
@@ -281,7 +286,7 @@ def check_side_by_side(case):
 
 
 def history_strategy(tier):
-    nodes = st.lists(st.integers(0, 7), min_size=1, max_size=6, unique=True)
+    nodes = st.lists(st.one_of(st.integers(0, 7), st.integers(0, 12)), min_size=1, max_size=6, unique=True)
     sched = st.one_of(st.none(), st.lists(st.sampled_from([1, 2, 3, 5, 8, 13, 50, 4096]), min_size=1, max_size=4))
     fb = st.dictionaries(st.sampled_from(["1", "2", "3"]), st.lists(st.integers(0, 7), min_size=1, max_size=3, unique=True), max_size=2)
     return st.fixed_dictionaries({"steps": st.lists(nodes, min_size=1, max_size=6), "use_vpc": st.sampled_from([True, False, 1, 0]), "pooling": st.booleans(),
